@@ -192,7 +192,7 @@ def run_tasks(task_iter, budget_s, nworkers, per_task_timeout, root,
                      'out': os.path.join(d, 'out.json'),
                      'err': os.path.join(d, 'stderr.txt')}
             task = dict(task)
-            task['run_timeout'] = timeout
+            task['run_timeout'] = per_task_timeout
             task['scratch'] = os.path.join(d, 's')
             task['out'] = paths['out']
             with open(paths['in'], 'w') as f:
